@@ -21,7 +21,10 @@ RULE = ("case = an op sequence run on one real store directory (2 datasets): ass
         "non-http), GetNamespacedIdentifier with local namespaces, context fetch + later read of the same handle, entity batches "
         "through StoreEntities / ExecuteTransaction / a contextual store's ExecuteTransaction (ids shared across datasets, failing "
         "batches with an empty URI, re-stored entities with new reference targets), NewContextualStore, restart (Close+NewStore) and "
-        "crash (directory image taken while open) at random positions, dumps of both namespace maps and both id indexes; "
+        "crash (directory image taken while open) at random positions, writes during which the process dies at a verifhook point "
+        "(before the id commit / between id and entity commit / after both; StoreEntities, ExecuteTransaction, contextual store), "
+        "dumps of both namespace maps, both id indexes and the (identifier, id) pairs carried by stored entity versions and "
+        "reference keys; "
         "a case is non-trivial when it contains a restart/crash or a contextual-store write or a context read after an assertion; "
         "distinct = distinct op sequences; every tier adds bounded concurrent bursts on the namespace manager in a child process "
         "(k callers introducing the same new namespace while another request stream introduces others, then k different new "
@@ -70,9 +73,17 @@ def op_getprefix(s): return {"op": "getprefix", "s": s}
 def op_fetch(): return {"op": "fetch"}
 def op_read(h): return {"op": "read", "h": h}
 def ent(i, p=None, t=None): return {"id": i, "ref": p is not None, "p": p or "", "t": t or ""}
-def op_batch(ds, ents, txn=False): return {"op": "batch", "ds": ds, "ents": ents, "txn": txn}
+def op_batch(ds, ents, txn=False, crashpt=None):
+    o = {"op": "batch", "ds": ds, "ents": ents, "txn": txn}
+    if crashpt is not None:
+        o["crashpt"] = crashpt
+    return o
 def op_ctxnew(): return {"op": "ctxnew"}
-def op_ctxtxn(k, ds, ents): return {"op": "ctxtxn", "k": k, "ds": ds, "ents": ents}
+def op_ctxtxn(k, ds, ents, crashpt=None):
+    o = {"op": "ctxtxn", "k": k, "ds": ds, "ents": ents}
+    if crashpt is not None:
+        o["crashpt"] = crashpt
+    return o
 def op_restart(crash=False): return {"op": "restart", "crash": crash}
 def op_dump(): return {"op": "dump"}
 def mk(ops): return {"dss": DSS, "ops": ops}
@@ -97,6 +108,18 @@ def witness_cases():
         # lease: crash skips the rest of the lease, clean restart does not
         mk([op_batch("a", [ent("ns3:e1")]), op_restart(True), op_batch("a", [ent("ns3:e2")]), op_restart(False),
             op_batch("b", [ent("ns3:e3"), ent("ns3:e1")], True), op_restart(True), op_restart(True), op_batch("b", [ent("ns4:e1")]),
+            op_dump()]),
+        # the process dies at a hook point of a write (before the id commit / between the two commits / after both),
+        # through ExecuteTransaction, StoreEntities and a contextual store; the next process must find no internal id
+        # without its URI record, and the identifiers keep their ids
+        mk([op_batch("a", [ent("ns3:alice", "ns3:knows", "ns3:bob")], True, 1), op_dump(), op_batch("b", [ent("ns3:alice")]),
+            op_batch("a", [ent("ns3:carol", "ns3:knows", "ns3:dave")], True, 0), op_dump(), op_batch("b", [ent("ns3:carol")]),
+            op_batch("a", [ent("ns3:erin", "ns3:knows", "ns3:frank")], True, 2), op_dump(), op_batch("b", [ent("ns3:erin")]),
+            op_dump()]),
+        mk([op_batch("a", [ent("ns3:alice", "ns3:knows", "ns3:bob")], False, 1), op_dump(), op_batch("b", [ent("ns3:alice")], True),
+            op_ctxnew(), op_ctxtxn(0, "a", [ent("ns3:gus", "ns3:knows", "ns3:hal")], 1), op_dump(), op_batch("b", [ent("ns3:gus")]),
+            op_ctxnew(), op_ctxtxn(0, "b", [ent("ns3:ivy"), ent("ns3:gus", "ns3:knows", "ns3:jo")], 2), op_dump(),
+            op_batch("a", [ent("ns3:ivy"), ent("ns3:jo")], False, 0), op_dump(), op_batch("a", [ent("ns3:ivy"), ent("ns3:jo")]),
             op_dump()]),
         # URI shapes
         mk([op_compact(x) for x in ODD_URIS] + [op_compact(n + l) for n, l in zip(NS_POOL, LOCALS)]
@@ -164,7 +187,11 @@ def rand_case(rng, nops, flavour):
         elif r < 45:
             ops.append(op_read(rng.below(nfetch + 1) if rng.chance(1, 10) else rng.below(max(nfetch, 1))))
         elif r < 63:
-            ops.append(op_batch(rng.choice(DSS), rand_ents(rng), rng.chance(1, 3)))
+            if rng.chance(1, 4):
+                ops.append(op_batch(rng.choice(DSS), rand_ents(rng), rng.chance(2, 3), rng.below(3)))
+                nctx = 0
+            else:
+                ops.append(op_batch(rng.choice(DSS), rand_ents(rng), rng.chance(1, 3)))
         elif r < 70:
             ops.append(op_ctxnew())
             nctx += 1
@@ -172,6 +199,9 @@ def rand_case(rng, nops, flavour):
             if nctx == 0:
                 ops.append(op_ctxnew())
                 nctx += 1
+            elif rng.chance(1, 5):
+                ops.append(op_ctxtxn(rng.below(nctx), rng.choice(DSS), rand_ents(rng), rng.below(3)))
+                nctx = 0
             else:
                 ops.append(op_ctxtxn(rng.below(nctx), rng.choice(DSS), rand_ents(rng)))
         elif r < 92:
@@ -231,7 +261,8 @@ def nsnum(p):
     return (0, int(m.group(1)), "") if m else (1, 0, p)
 
 
-OUTCOME = {"ok": "OcOk", "empty": "OcErrEmpty", "discarded": "OcErrDiscarded", "panic": "OcPanic"}
+# "crashed" = the write reached its hook point and the process died there: the model reports HOBatch OcOk for it
+OUTCOME = {"ok": "OcOk", "empty": "OcErrEmpty", "discarded": "OcErrDiscarded", "panic": "OcPanic", "crashed": "OcOk"}
 CONC = {"": 0, "survived": 1, "died-map": 2, "died-other": 3, "hang": 4, "inconsistent": 5}
 
 
@@ -259,9 +290,11 @@ def out_term(o):
         e2p = sorted(o.get("e2p") or [], key=lambda ep: nsnum(ep[1]))
         u2i = sorted(o.get("u2i") or [], key=lambda x: x["i"])
         i2u = sorted(o.get("i2u") or [], key=lambda x: x["i"])
-        return "HODump %s %s %s %s" % (
+        stored = sorted(o.get("stored") or [], key=lambda x: x["i"])
+        return "HODump %s %s %s %s %s" % (
             ss(p2e), ss(e2p), vlib.coq_list(["(%s, %d)" % (s2l(x["u"]), x["i"]) for x in u2i]),
-            vlib.coq_list(["(%d, %s)" % (x["i"], s2l(x["u"])) for x in i2u]))
+            vlib.coq_list(["(%d, %s)" % (x["i"], s2l(x["u"])) for x in i2u]),
+            vlib.coq_list(["(%s, %d)" % (s2l(x["u"]), x["i"]) for x in stored]))
     return "HONs ONone"
 
 
@@ -285,6 +318,12 @@ def op_term(op):
         return "HNs NFetch"
     if k == "read":
         return "HNs (NRead %d)" % op["h"]
+    if k == "batch" and op.get("crashpt") is not None:
+        return "HCrashWrite %s None %s %s %d" % (vlib.coq_bool(op.get("txn", False)), s2l(op["ds"]),
+                                                 vlib.coq_list([ent_term(e) for e in op["ents"]]), op["crashpt"])
+    if k == "ctxtxn" and op.get("crashpt") is not None:
+        return "HCrashWrite true (Some %d) %s %s %d" % (op["k"], s2l(op["ds"]), vlib.coq_list([ent_term(e) for e in op["ents"]]),
+                                                        op["crashpt"])
     if k == "batch":
         return "HBatch %s %s %s" % (vlib.coq_bool(op.get("txn", False)), s2l(op["ds"]), vlib.coq_list([ent_term(e) for e in op["ents"]]))
     if k == "ctxnew":
@@ -335,8 +374,10 @@ def attribute(c, o):
         return "F13d"
     if "discarded" in ocs:
         return "F13b"
-    kinds = [op["op"] for op in c["ops"]]
-    if "ctxtxn" in kinds and "restart" in kinds:
+    # F13c: ids handed out by an acknowledged contextual-store transaction are not durable
+    died = any(op.get("crashpt") is not None for op in c["ops"])
+    ctx_ok = any(op["op"] == "ctxtxn" and op.get("crashpt") is None and x.get("oc") == "ok" for op, x in zip(c["ops"], outs))
+    if ctx_ok and not died:
         return "F13c"
     return None
 
@@ -349,7 +390,7 @@ def classify(c, o):
     if c.get("conc"):
         return "concurrent"
     kinds = [op["op"] for op in c["ops"]]
-    if "restart" in kinds or "ctxtxn" in kinds:
+    if "restart" in kinds or "ctxtxn" in kinds or any(op.get("crashpt") is not None for op in c["ops"]):
         return "history"
     if "read" in kinds and ("compact" in kinds or "assert" in kinds):
         return "snapshot"
@@ -366,6 +407,9 @@ def tags(c, o):
             t.append("has-" + k)
     if any(op["op"] == "restart" and op.get("crash") for op in c["ops"]):
         t.append("has-crash")
+    for op in c["ops"]:
+        if op.get("crashpt") is not None:
+            t.append("dies-at-hook=%s/%d" % ("ctxtxn" if op["op"] == "ctxtxn" else ("txn" if op.get("txn") else "batch"), op["crashpt"]))
     for x in (o.get("outs") or []):
         if x.get("k") == "batch":
             t.append("batch-outcome=" + str(x.get("oc")))
